@@ -98,6 +98,10 @@ void Model::submit(int mi, const Post& p) {
     } else if (p.api == API_ENQUEUE) {
         if (mp()) m_do_defer(mi, e, false);
         else inst_[mi].q_msg.push_back(BQItem{e, SRC_MSGQ});
+    } else if (p.api == API_CLEARDEF) {
+        // C20: clearing the deferred queue from inside a dispatch destroys the stored copies; the occurrence being
+        // dispatched (already taken out of the queue) is unaffected
+        if (!mp() && M(mi).has_deferred) inst_[mi].q_def.clear();
     } else {
         if (mp()) m_do_defer(mi, e, inst_[mi].busy);
         else if (M(mi).has_deferred) b_defer(mi, e);
